@@ -1,3 +1,6 @@
+// Verification hook: with the guard on, `Mutex` is only used through an alias below.
+#![cfg_attr(mini_moka_verif, allow(unused_imports))]
+
 use super::{iter::DashMapIter, Iter};
 use crate::{
     common::{
@@ -479,13 +482,21 @@ type CacheStore<K, V, S> = crate::verif::VerifMap<Arc<K>, TrioArc<ValueEntry<K, 
 
 type CacheEntryRef<'a, K, V> = DashMapRef<'a, Arc<K>, TrioArc<ValueEntry<K, V>>>;
 
+#[cfg(not(mini_moka_verif))]
+type DequesMutex<T> = Mutex<T>;
+
+// Verification hook: the mutex that serialises maintenance passes behind a wrapper
+// whose `lock` / `try_lock` are scheduling events for the controlled scheduler.
+#[cfg(mini_moka_verif)]
+type DequesMutex<T> = crate::verif::VerifMutex<T>;
+
 pub(crate) struct Inner<K, V, S> {
     max_capacity: Option<u64>,
     entry_count: AtomicCell<u64>,
     weighted_size: AtomicCell<u64>,
     cache: CacheStore<K, V, S>,
     build_hasher: S,
-    deques: Mutex<Deques<K>>,
+    deques: DequesMutex<Deques<K>>,
     frequency_sketch: RwLock<FrequencySketch>,
     frequency_sketch_enabled: AtomicBool,
     read_op_ch: Receiver<ReadOp<K, V>>,
@@ -542,7 +553,7 @@ where
             weighted_size: Default::default(),
             cache,
             build_hasher,
-            deques: Mutex::new(Default::default()),
+            deques: DequesMutex::new(Default::default()),
             frequency_sketch: RwLock::new(Default::default()),
             frequency_sketch_enabled: Default::default(),
             read_op_ch,
@@ -689,8 +700,6 @@ where
     S: BuildHasher + Clone + Send + Sync + 'static,
 {
     fn sync(&self, max_repeats: usize) {
-        #[cfg(mini_moka_verif)]
-        crate::verif::block_until("sync.lock", &|| self.deques.try_lock().is_ok());
         let mut deqs = self.deques.lock().expect("lock poisoned");
         let mut calls = 0;
         let mut should_sync = true;
